@@ -27,7 +27,7 @@ import common, minifont
 WIN = (3, 1, 0x409)
 NAME_IDS = (1, 2, 3, 4, 5, 6, 16, 17)
 QUICK_BUDGET = {"fallback": 180, "tail": 50, "inst": 160, "inst3": 50, "axesfea": 130, "cvparams": 90}
-THOROUGH_BUDGET = {"fallback": 6000, "tail": None, "inst": 5000, "inst3": None, "axesfea": None, "cvparams": 2000}
+THOROUGH_BUDGET = {"fallback": 4500, "tail": None, "inst": 3500, "inst3": None, "axesfea": None, "cvparams": 1500}
 FIELDS = (("fam", "familyName"), ("sty", "styleName"), ("smf", "styleMapFamilyName"), ("sms", "styleMapStyleName"),
           ("pf", "openTypeNamePreferredFamilyName"), ("psub", "openTypeNamePreferredSubfamilyName"),
           ("uid", "openTypeNameUniqueID"), ("ver", "openTypeNameVersion"), ("psn", "postscriptFontName"),
